@@ -563,6 +563,8 @@ class C04(Suite):
         twin = rng.random() < 0.10
         if twin:
             q = self.gen_twin(env)
+        if is_ds and not twin and rng.random() < 0.14:
+            named, q = self.gen_graph_exists(env, named)
         r = rng.random()
         case = {"ds": is_ds, "default": default, "named": named, "q": q}
         if r < 0.8 or twin:
@@ -583,6 +585,45 @@ class C04(Suite):
 
     def gen_var(self, env):
         return env["rng"].randint(1, env["nv"])
+
+    def gen_graph_exists(self, env, named):
+        """(NOT) EXISTS - as FILTER, as the condition of an OPTIONAL, as the value of a BIND -
+        inside GRAPH ?g over two named graphs that SHARE the triples the outer pattern
+        matches (so the same inner solution occurs in both graphs) but differ in what
+        the EXISTS pattern matches"""
+        rng = env["rng"]
+        subs, preds = env["subs"], env["preds"]
+        nodes = sorted(set(subs + [o for o in env["objs"] if o < 10])) or subs
+        s0, o0 = rng.choice(subs), rng.choice(nodes)
+        p0, q0 = rng.choice(preds), rng.choice(preds)
+        w0 = rng.choice(env["objs"])
+        shared = [[s0, p0, o0]]
+        if rng.random() < 0.5:
+            shared.append([rng.choice(subs), rng.choice(preds), rng.choice(env["objs"])])
+        only = [o0, q0, w0]
+        shared = [t for t in shared if t != only]
+        if not shared:
+            shared = [[s0, p0, o0]] if [s0, p0, o0] != only else [[s0, p0, w0]]
+        extra = [[rng.choice(subs), rng.choice(preds), rng.choice(env["objs"])]] if rng.random() < 0.4 else []
+        extra = [t for t in extra if t != only]
+        g1 = sorted([list(t) for t in {tuple(t) for t in shared + [only]}])
+        g2 = sorted([list(t) for t in {tuple(t) for t in shared + extra}])
+        if rng.random() < 0.5:
+            g1, g2 = g2, g1
+        named = [[named[0][0], g1], [named[1][0], g2]]
+        outer = ["bgp", [[-1, p0, -2]]]
+        ex = ["exists", rng.random() < 0.5, ["group", [["bgp", [[-2, q0, -3]]]]]]
+        kind = rng.choice(["filter", "filter", "opt", "bind"])
+        if kind == "filter":
+            inner = [outer, ["filter", ex]]
+        elif kind == "opt":
+            inner = [outer, ["opt", ["group", [["bgp", [[-1, p0, -5]]], ["filter", ex]]]]]
+        else:
+            inner = [outer, ["bind", ex, 5]]
+        els = [["graph", -4, ["group", inner]]]
+        if rng.random() < 0.3:
+            els.insert(0, ["bgp", [self.gen_tpat(env)]])
+        return named, ["group", els]
 
     def gen_twin(self, env):
         """a UNION whose two branches consist of the SAME triple patterns, once as one
